@@ -49,6 +49,7 @@ pub fn run_c05(ctx: &mut Ctx) {
             finish_history(ctx, &sim, case, nontrivial);
         }
     });
+    super::enumprops::transport(ctx, sim::M_C05);
 }
 
 pub fn run_c06(ctx: &mut Ctx) {
@@ -132,6 +133,7 @@ pub fn run_c06(ctx: &mut Ctx) {
         }
         ctx.eval(Some(case ^ 0xdefa));
     });
+    super::enumprops::transport(ctx, sim::M_C06);
 }
 
 pub fn run_c11(ctx: &mut Ctx) {
@@ -153,6 +155,7 @@ pub fn run_c11(ctx: &mut Ctx) {
             finish_history(ctx, &sim, case, nontrivial);
         }
     });
+    super::enumprops::transport(ctx, sim::M_C11);
 }
 
 pub fn run_c12(ctx: &mut Ctx) {
@@ -179,6 +182,7 @@ pub fn run_c12(ctx: &mut Ctx) {
             finish_history(ctx, &sim, case, !sim.txs.is_empty() || limit == 0);
         }
     });
+    super::enumprops::transport(ctx, sim::M_C12);
 }
 
 pub fn run_c15(ctx: &mut Ctx) {
@@ -235,6 +239,7 @@ pub fn run_c17(ctx: &mut Ctx) {
         }
     });
     twin_runs(ctx);
+    super::enumprops::transport(ctx, sim::M_C17);
 }
 
 /// C17 oracle B: twin runs of the same seeded schedule without (H) and with (H') rejected
